@@ -247,7 +247,7 @@ func restoreBuiltins() {
 
 func init() {
 	register(&scenario{
-		Prop: "C19", Run: runC19, Race: true, RunsPerProcess: 100, Level: "exploration", Quick: 250000, Thorough: 3000000, AbortIsViolation: true,
+		Prop: "C19", Run: runC19, Race: true, RunsPerProcess: 200, Level: "exploration", Quick: 250000, Thorough: 3000000, AbortIsViolation: true,
 		Rule:        "one run = 2-4 client tasks x 1-6 operations over 1-3 algorithm names drawn from {Registry(distinct service object with unique id), Registry(non-service), Get, Remove, Clear} against the real codec registry, optionally pre-populated; a seeded scheduler switches tasks at instrumented statements of codec/checksum.go and at every lock operation (mean preemption gap per run from {never,1,3,10,40} statements), blocked lock waiters are woken in seeded order. Oracles: (i) the recorded history (invoke/return stamped with the scheduler's global event sequence) is linearizable w.r.t. a sequential map model (porcupine; Unknown = inconclusive, never reported); a Get never returns a service registered under another name; (ii) Go race detector with scheduler hand-offs hidden from it, so only the library's own locking orders accesses (a report kills the worker, is attributed, re-executed and reported); (iii) deadlock / unlock-of-unlocked monitor; (iv) all operations complete within the run's step budget. Non-trivial = at least one context switch happened inside an operation and the history was checked; distinct = distinct run fingerprints (tape draws + observed results + interleaving).",
 		Assumptions: []string{"linearizability only: no fairness or lock hand-off order is asserted", "race reports are attributed to the library only when a library frame is on a reported stack"},
 	})
@@ -318,7 +318,11 @@ func runC19(c *RunCtx) {
 	churn := 0
 	switch t.Intn(10) {
 	case 7:
-		churn = []int{63, 127, 255, 256, 511, 1023, 4095}[t.Intn(7)] - t.Intn(7)
+		sizes := []int{63, 127, 255, 256, 257, 511}
+		if c.Thorough {
+			sizes = append(sizes, 1023, 4095, 65535)
+		}
+		churn = sizes[t.Intn(len(sizes))] - t.Intn(7)
 	case 8:
 		churn = 250 + t.Intn(8)
 	case 9:
